@@ -2,7 +2,7 @@ import Qv.Proofs.PcboNe2
 /-!
 # C02: the six relations together (`addConstraint`), `is_solution_valid`, histories
 -/
-namespace Qv
+namespace Qv.PcboP
 
 /-- the relation against zero, as a proposition -/
 def RelP : Rel → Rat → Prop
@@ -112,7 +112,7 @@ structure Step where
   sup : Bool
 
 def step (st : St) (c : Step) : St := addConstraint c.rel st c.P c.lam c.lt c.b c.sup
-def runH (st : St) (h : List Step) : St := h.foldl step st
+def run (st : St) (h : List Step) : St := h.foldl step st
 
 /-- every label occurring in the model's terms is a user label or an ancilla already counted -/
 def AncInv (st : St) : Prop := Below (ANC + st.anc) st.terms
@@ -134,26 +134,26 @@ theorem step_ancInv {st : St} {c : Step} (hi : AncInv st) (hP : Below (ANC + st.
   refine labelsIn_iaddB (hi.mono hm) (h3 _ (hP.mono hm) ?_)
   intro k _ hk; exact Nat.add_lt_add_left hk _
 
-theorem run_anc_le (st : St) (h : List Step) : st.anc ≤ (runH st h).anc := by
+theorem run_anc_le (st : St) (h : List Step) : st.anc ≤ (run st h).anc := by
   induction h generalizing st with
   | nil => exact Nat.le_refl _
   | cons c r ih => exact Nat.le_trans (step_anc_le st c) (ih (step st c))
 
-theorem run_ancInv {st : St} {h : List Step} (hi : AncInv st) (hok : HistOk st h) : AncInv (runH st h) := by
+theorem run_ancInv {st : St} {h : List Step} (hi : AncInv st) (hok : HistOk st h) : AncInv (run st h) := by
   induction h generalizing st with
   | nil => exact hi
   | cons c r ih => exact ih (step_ancInv hi hok.1) hok.2
 
-theorem run_append (st : St) (h1 h2 : List Step) : runH st (h1 ++ h2) = runH (runH st h1) h2 := by
-  unfold runH; rw [List.foldl_append]
+theorem run_append (st : St) (h1 h2 : List Step) : run st (h1 ++ h2) = run (run st h1) h2 := by
+  unfold run; rw [List.foldl_append]
 
 /-- the recorded constraints after a history are exactly the inputs, in order -/
-theorem run_cons (st : St) (h : List Step) : (runH st h).cons = st.cons ++ h.map (fun c => (c.rel, c.P)) := by
+theorem run_cons (st : St) (h : List Step) : (run st h).cons = st.cons ++ h.map (fun c => (c.rel, c.P)) := by
   induction h generalizing st with
-  | nil => simp [runH]
+  | nil => simp [run]
   | cons c r ih =>
     have := ih (step st c)
-    simp only [runH, List.foldl_cons, List.map_cons] at this ⊢
+    simp only [run, List.foldl_cons, List.map_cons] at this ⊢
     rw [this]
     unfold step
     rw [(addConstraint_book c.rel st c.P c.lam c.lt c.b c.sup).1]
@@ -161,17 +161,17 @@ theorem run_cons (st : St) (h : List Step) : (runH st h).cons = st.cons ++ h.map
 
 /-- ancilla sets of two different additions of one history are disjoint -/
 theorem ancillas_disjoint (st : St) (h1 : List Step) (c : Step) (h2 : List Step) (d : Step) (i : Var)
-    (hc : InA (runH st h1) (step (runH st h1) c) i)
-    (hd : InA (runH (step (runH st h1) c) h2) (step (runH (step (runH st h1) c) h2) d) i) : False := by
+    (hc : InA (run st h1) (step (run st h1) c) i)
+    (hd : InA (run (step (run st h1) c) h2) (step (run (step (run st h1) c) h2) d) i) : False := by
   obtain ⟨k, _, hk2, rfl⟩ := hc
   obtain ⟨k', hk1', _, e⟩ := hd
-  have := run_anc_le (step (runH st h1) c) h2
+  have := run_anc_le (step (run st h1) c) h2
   have e' : k = k' := Nat.add_left_cancel e
   omega
 
-end Qv
+end Qv.PcboP
 
-namespace Qv
+namespace Qv.PcboP
 
 /-- integer coefficients give integer values on boolean assignments -/
 theorem intValued_of_intCoeffs {P : Poly} (h : ∀ kv ∈ P, ∃ n : Int, kv.2 = n) : IntValued P := by
@@ -191,4 +191,4 @@ theorem intValued_of_intCoeffs {P : Poly} (h : ∀ kv ∈ P, ∃ n : Int, kv.2 =
 theorem validBounds_none (P : Poly) : ValidBounds P (none, none) :=
   ⟨fun _ h _ _ => (by cases h), fun _ h _ _ => (by cases h)⟩
 
-end Qv
+end Qv.PcboP
